@@ -337,8 +337,13 @@ func c02AssertStatic(g, c *OpenChannel, w *c02World) {
 // VerifC02Reload: fetchOpenChannel(putOpenChannel(x)) == x.
 func c02Reload(maxHtlcs int) {
 	c02Mode(false, false, false)
-	w := c02Channel(ChannelStatus(vU64("chanStatus")&^uint64(ChanStatusRestored)), maxHtlcs)
-	// Domain: not a restored (SCB) channel - those carry no commitments at all.
+	// status word: default, or a few flags set. Not a restored (SCB) channel -
+	// those carry no commitments at all.
+	status := ChanStatusDefault
+	if vChoice("statusShape", 2) == 1 {
+		status = ChanStatusBorked | ChanStatusLocalDataLoss | ChanStatusRemoteCloseInitiator
+	}
+	w := c02Channel(status, maxHtlcs)
 	w.db.failAt = -1
 	vAssert(putOpenChannel(w.bkt, w.ch) == nil, "reload: putOpenChannel succeeds")
 	g, err := fetchOpenChannel(w.bkt, &w.ch.FundingOutpoint)
